@@ -239,10 +239,27 @@ class TrG(TrM):
         if k in ('ImplicitCastExpr', 'CXXStaticCastExpr', 'CStyleCastExpr', 'CXXFunctionalCastExpr', 'UnaryOperator',
                  'BinaryOperator', 'ConditionalOperator'): return super().expr(n)
         raise NI('expr ' + k)
+    def inlinable(self, n):
+        """(definition, arguments) when `n` calls a local lambda or a free function defined in this translation unit's own file"""
+        k = n.get('kind')
+        if k == 'CXXOperatorCallExpr' and callee_decl(n).get('referencedDecl', {}).get('name') == 'operator()':
+            obj = strip(n['inner'][1])
+            while obj.get('kind') == 'ImplicitCastExpr': obj = strip(obj['inner'][0])
+            lam = self.lambdas.get(obj.get('referencedDecl', {}).get('name')) if obj.get('kind') == 'DeclRefExpr' else None
+            return (lam, n['inner'][2:]) if lam is not None else None
+        if k == 'CallExpr':
+            cd = callee_decl(n)
+            if cd.get('kind') == 'DeclRefExpr' and cd['referencedDecl'].get('kind') == 'FunctionDecl':
+                decl = self.find_function(cd['referencedDecl'].get('name'), len(n['inner']) - 1)
+                if decl is not None: return decl, n['inner'][1:]
+        return None
     def cond(self, n):
         k = n['kind']
-        if k == 'CXXOperatorCallExpr' or k == 'CallExpr' or k == 'CXXMemberCallExpr':
-            if ctype(n) == (1, False): return f'({self.expr(n)} ≠ 0)'
+        if k in ('CXXOperatorCallExpr', 'CallExpr') and is_int(n) and ctype(n) == (1, False):
+            hit = self.inlinable(n)
+            if hit: return self.inline(hit[0], hit[1], 'cond')      # a predicate: its returned condition, as a Prop
+        if k in ('CXXOperatorCallExpr', 'CallExpr', 'CXXMemberCallExpr') and is_int(n) and ctype(n) == (1, False):
+            return f'({self.expr(n)} ≠ 0)'
         return super().cond(n)
 
     # ---------- inlining of file-local functions and lambdas ----------
@@ -282,7 +299,7 @@ class TrG(TrM):
             if want_value:
                 if early: raise NI('value of a function with more than one return')
                 if ret is None: raise NI('value of a function without a final return')
-                v = self.cond_or_expr(ret)
+                v = self.cond(strip(ret)) if want_value == 'cond' else self.cond_or_expr(ret)
             else: v = None
             self.pc = pc0
             return v if want_value else ('True' if early else ft)
